@@ -272,7 +272,7 @@ pub fn candidates(s: &Scenario) -> Vec<Scenario> {
     }
 }
 
-fn size(s: &Scenario) -> usize {
+pub fn size(s: &Scenario) -> usize {
     let json = serde_json::to_string(s).map(|x| x.len()).unwrap_or(usize::MAX);
     // a run is as large as the bytes it stands for
     let runs: usize = match s {
